@@ -10,7 +10,7 @@ EXPLANATION = (
     'listed-hash == local-hash or is Put; (R2) the Put carries the path, the listed hash as `expected`, the content of local_root.join(rel) and the local '
     'digest of the same loop entry; HubClient::put announces the file\'s metadata length and streams that file; (R3) a non-committed Put latches a variable (counter, bool or Option) that is never reset and guards the Ok return, the loop always goes on to the next local entry after a Put reply (a lost CAS does not stop the push), '
     'and every I/O error propagates; (R4) the client module neither deletes, mutates files, nor sends Delete; List hides only the .copia control '
-    'directory; (R5) target dispatch: host:root -> ssh -T host copia serve root, otherwise <current_exe> serve <target>; prologue and Hello precede every other request. '
+    'directory; the hiding predicate must be the component-wise Path::starts_with (a string prefix would also hide .copiarc), in filter or loop form; (R5) target dispatch: host:root -> ssh -T host copia serve root, otherwise <current_exe> serve <target>; prologue and Hello precede every other request. '
     'The hub half is C03/C10. Not decided: hub end state; second-run silence (follows from R1 and C10).')
 ASSUMPTIONS = ['the hub behaves as decided by C03/C10/C11/C12']
 
